@@ -264,6 +264,18 @@ enum TV {
     Bytes(Vec<u8>),
     Absent,
     Err(i16),
+    /// (expectations only) some value / some conversion error: the element was offered, what the conversion makes of
+    /// an element of another type is the conversion's business
+    AnyOk,
+    AnyErr,
+}
+
+fn tv_match(got: &TV, want: &TV) -> bool {
+    match (got, want) {
+        (TV::I64(_) | TV::F64(_) | TV::Bytes(_), TV::AnyOk) => true,
+        (TV::Err(c), TV::AnyErr) => *c != -109 && *c != -108,
+        (g, w) => g == w,
+    }
 }
 
 #[derive(Default)]
@@ -286,6 +298,8 @@ struct TypedCmd {
     /// a handler that does not give up at the first -109: asks again this many times and then either returns the
     /// error or carries on with a default (returns Ok)
     persist: Option<(usize, bool)>,
+    /// a handler that notes a failed conversion (wrong element type for what it asked) and goes on to its next parameter
+    forgiving: bool,
 }
 
 impl TypedCmd {
@@ -299,6 +313,9 @@ impl TypedCmd {
                         Ok(None) => dev.got.push(TV::Absent),
                         Err(e) => {
                             dev.got.push(TV::Err(e.get_code()));
+                            if self.forgiving && e.get_code() != -109 {
+                                continue;
+                            }
                             return Err(e);
                         }
                     }
@@ -307,6 +324,9 @@ impl TypedCmd {
                         Ok(v) => dev.got.push($wrap(v)),
                         Err(e) => {
                             dev.got.push(TV::Err(e.get_code()));
+                            if self.forgiving && e.get_code() != -109 {
+                                continue;
+                            }
                             if let (Some((again, swallow)), -109) = (self.persist, e.get_code()) {
                                 for _ in 0..again {
                                     match params.next_data::<$t>() {
@@ -367,7 +387,9 @@ pub fn run_typed(cfg: &Cfg, rep: &mut Report) {
         let np = rng.usize(6);
         let pulls: Vec<(bool, TK)> = (0..np).map(|_| (rng.chance(2, 5), *rng.pick(&[TK::I64, TK::F64, TK::Bytes, TK::Arb, TK::Chr]))).collect();
         let persist = if rng.chance(1, 4) { Some((1 + rng.usize(3), rng.bool())) } else { None };
-        let cmd = TypedCmd { pulls: pulls.clone(), persist };
+        // now and then the data sent is of another type than the handler asks for, and the handler carries on
+        let forgiving = rng.chance(1, 4);
+        let cmd = TypedCmd { pulls: pulls.clone(), persist, forgiving };
         let fol = Follower;
         // A[:SUB] (default leaf inside a branch), TYPed (plain leaf), B (follower): all through the constructors
         let sub = [Node::default_leaf(b"SUB", &cmd), Node::leaf(b"OTHer", &fol)];
@@ -390,7 +412,7 @@ pub fn run_typed(cfg: &Cfg, rep: &mut Report) {
         let mut want: Vec<TV> = vec![];
         for i in 0..nsent {
             msg.extend_from_slice(if i == 0 { b" " } else { *rng.pick(&[&b","[..], b" ,", b", ", b" , "]) });
-            let kind = if i < np { pulls[i].1 } else { *rng.pick(&[TK::I64, TK::Bytes, TK::Chr]) };
+            let kind = if i < np && !(forgiving && rng.bool()) { pulls[i].1 } else if i < np { *rng.pick(&[TK::I64, TK::F64, TK::Bytes, TK::Arb, TK::Chr]) } else { *rng.pick(&[TK::I64, TK::Bytes, TK::Chr]) };
             let val = match kind {
                 TK::I64 => {
                     let v = rng.range(-100_000, 100_000);
@@ -425,7 +447,24 @@ pub fn run_typed(cfg: &Cfg, rep: &mut Report) {
                 }
             };
             if i < np {
-                want.push(val);
+                // what asking for `pulls[i]` makes of this element
+                let asked = pulls[i].1;
+                want.push(if asked == kind {
+                    val
+                } else {
+                    ctx.count("typed.element-of-another-type-than-asked");
+                    match (asked, kind, &val) {
+                        (TK::F64, TK::I64, TV::I64(v)) => TV::F64((*v as f64).to_bits()),
+                        (TK::I64, TK::F64, _) => TV::AnyOk,
+                        // character data may be a keyword of the numeric type (MAX, MIN, INF ...) or not
+                        (TK::I64 | TK::F64, TK::Chr, TV::Bytes(w)) => {
+                            let u = w.to_ascii_uppercase();
+                            let kw: &[&[u8]] = if asked == TK::I64 { &[b"MAX", b"MAXIMUM", b"MIN"] } else { &[b"MAX", b"MAXIMUM", b"MIN", b"INF", b"NINF", b"NAN"] };
+                            if kw.contains(&&u[..]) { TV::AnyOk } else { TV::AnyErr }
+                        }
+                        _ => TV::AnyErr,
+                    }
+                });
             }
         }
         // pulls beyond the data sent
@@ -471,7 +510,7 @@ pub fn run_typed(cfg: &Cfg, rep: &mut Report) {
         let r = root.run(&msg, &mut dev, &mut c, &mut out);
         ctx.add("typed.pulls-observed", dev.got.len() as u64);
         let detail = || jobj(&[("message", jbytes(&msg)), ("pulls(optional,type)", jstr(&format!("{:?}", pulls))), ("expected_values", jstr(&format!("{:?}", want))), ("observed_values", jstr(&format!("{:?}", dev.got))), ("follower_saw", jstr(&format!("{:?}", dev.follower))), ("result", jstr(&format!("{:?}", r.as_ref().map_err(|e| e.get_code())))), ("hook", jstr(&format!("{:?}", dev.hook)))]);
-        if dev.got != want {
+        if dev.got.len() != want.len() || !dev.got.iter().zip(want.iter()).all(|(g, w)| tv_match(g, w)) {
             let sig = if dev.got.len() == want.len() && dev.got.iter().zip(want.iter()).any(|(g, w)| matches!((g, w), (TV::Absent, TV::Err(_)) | (TV::Err(_), TV::Absent) | (TV::Absent, _) | (_, TV::Absent))) { "presence" } else { "values" };
             ctx.violation(&format!("C06:typed-api:handler-obtained-different-{}", sig), detail());
             return;
